@@ -8,3 +8,15 @@ import "gnoshim/gnobuiltin"
 func Emit(typ string, attrs ...string) {}
 
 func PackageAddress(pkgPath string) gnobuiltin.Address { return gnobuiltin.Address(pkgPath) }
+
+type Coin struct {
+	Denom  string
+	Amount int64
+}
+
+type Coins []Coin
+
+// SplitPkgSubPath: pure function of the path (assumed).
+func SplitPkgSubPath(pkgPath string) (base, sub string, isSub bool) { return splitPkgSubPath(pkgPath) }
+
+var splitPkgSubPath func(string) (string, string, bool)
